@@ -46,6 +46,9 @@ evaluated although no command is executed (the one way a dry body can fail). -/
 structure Cmd where
   writes : List (Path × Bytes)
   need : Option Path
+  /-- `ignore_error: true` on the command: a failing exit status is swallowed inside `runCommand` and the
+  next command runs.  Only for plain commands: on a `task:` call the code does not look at it. -/
+  ignoreError : Bool
 deriving Repr, DecidableEq
 
 /-- the call's precondition does not hold in `fs` -/
@@ -64,6 +67,13 @@ structure Task where
   prompt : Bool
   dir : Option Nat             -- `dir:` (a directory id), `none` = project root
   cmds : List Cmd
+  /-- `ignore_error: true` on the task: a command (or `task:` call) that ends with a failing EXIT STATUS
+  is skipped over.  (A call that fails on its precondition does not end with an exit status.) -/
+  ignoreError : Bool := false
+  /-- indices of the `generates` entries written `${G:?}…`: expanding them is an ERROR while the
+  environment variable `G` is not set (`Env.gset`).  Only interpreted for method checksum (`checkErr`);
+  the driver rejects them elsewhere. -/
+  gguard : List Nat := []
 deriving Repr, DecidableEq
 
 structure Proj where
@@ -88,6 +98,7 @@ structure Attempt where
   fp : Bytes                   -- `H` of the source stream when the loop was entered
   time : Nat
   ok : Bool                    -- every command ran and succeeded
+  src : List (Bytes × Bytes)   -- ghost: the (name, content) of every matched source when the loop was entered
 deriving Repr, DecidableEq
 
 structure State where
@@ -217,6 +228,10 @@ def lenTable (nm : Path → Bytes) (fs : FS) : List Path → Bytes
   | [] => []
   | p :: l => be64 (nm p).length ++ be64 (contentOf fs p).length ++ lenTable nm fs l
 
+/-- the list of (name, content) of the matched sources: what the fingerprint is a fingerprint OF -/
+def srcList (pr : Proj) (t : Task) (fs : FS) : List (Bytes × Bytes) :=
+  (srcsNow t fs).map (fun p => (nameOf pr t p, contentOf fs p))
+
 /-- the checksum: `%x%x` of the outer hash of the stream, then `%016x` of the hash of the length
 table.  (Before fix F8B: the first half alone.) -/
 def fpNow (H : Hashes) (pr : Proj) (t : Task) (fs : FS) : Bytes :=
@@ -293,9 +308,23 @@ structure Env where
   yes : Bool                   -- the prompt is answered yes (`--yes`); `false` = declined
   failAt : Option Nat          -- this command appends to the trace, then fails
   killAt : Option Nat          -- the process is killed before this command starts
+  /-- the task runs as a DEPENDENCY next to a sibling that fails while this task's `status:` commands
+  are running (`task parent`, `parent: deps: [failing, this]`): the status commands are interrupted —
+  verdict "not up to date" whatever the files say —, the sources checker still runs (and writes), and
+  the cancelled context makes the first command fail before it starts.  `RunTask` goes through
+  `statusOnError` like for any failing command. -/
+  cancelled : Bool := false
+  /-- the environment variable `G` is set in this invocation (entries `${G:?}…` can be expanded) -/
+  gset : Bool := true
+  /-- a SECOND ACTIVATION of the same task (no `run: once`) is started by a sibling dependency while the
+  first activation is inside its first command (`task parent`, `parent: deps: [this, other]`, `other:
+  cmds: [task: this]`).  It does not change what the first activation does (`invoke`); what the second
+  one reports is `twinUp`. -/
+  twin : Bool := false
 deriving Repr, DecidableEq
 
 inductive Exit | ok | failed | notUpToDate | cancelled | killed
+  | checkError                 -- the up-to-date check itself returned an error (exit status 1): nothing ran
 deriving Repr, DecidableEq
 
 structure Obs where
@@ -313,14 +342,21 @@ deriving Repr, DecidableEq
 def applyWrites (fs : FS) (ws : List (Path × Bytes)) (now : Nat) : FS :=
   ws.foldl (fun fs w => aset fs w.1 ⟨w.2, now⟩) fs
 
-/-- the command loop of `RunTask` -/
-def cmdLoop (e : Env) : List Cmd → Nat → FS → List Nat → FS × List Nat × LoopEnd
+/-- the failing exit status of this command is swallowed: `ignore_error` on the task (`ign`), or on a
+plain command -/
+def Cmd.ignorable (c : Cmd) (ign : Bool) : Bool := ign || (c.ignoreError && c.need.isNone)
+
+/-- the command loop of `RunTask` (`ign` = the task's `ignore_error`).  A command that fails with an
+exit status that is IGNORED has started (it is in the trace), wrote nothing, and the loop goes on. -/
+def cmdLoop (e : Env) (ign : Bool) : List Cmd → Nat → FS → List Nat → FS × List Nat × LoopEnd
   | [], _, fs, ran => (fs, ran, .done)
   | c :: cs, k, fs, ran =>
-    if c.blocked fs then (fs, ran, .failed)
+    if e.cancelled then (fs, ran, .failed)
+    else if c.blocked fs then (fs, ran, .failed)
     else if e.killAt = some k then (fs, ran, .killed)
-    else if e.failAt = some k then (fs, ran ++ [k], .failed)
-    else cmdLoop e cs (k + 1) (applyWrites fs c.writes e.now) (ran ++ [k])
+    else if e.failAt = some k then
+      if c.ignorable ign then cmdLoop e ign cs (k + 1) fs (ran ++ [k]) else (fs, ran ++ [k], .failed)
+    else cmdLoop e ign cs (k + 1) (applyWrites fs c.writes e.now) (ran ++ [k])
 
 def mkdirTask (t : Task) (s : State) : State :=
   match t.dir with
@@ -344,9 +380,11 @@ def runBody (cfg : Cfg) (H : Hashes) (pr : Proj) (i : Nat) (t : Task) (dry : Boo
     else (s1, Obs.quiet)
   else
     let s1 := mkdirTask t s
-    let r := cmdLoop e t.cmds 0 s1.files []
-    let att : Attempt := ⟨i, fpNow H pr t s1.files, e.now, decide (r.2.2 = .done)⟩
+    let r := cmdLoop e t.ignoreError t.cmds 0 s1.files []
+    let att : Attempt := ⟨i, fpNow H pr t s1.files, e.now, decide (r.2.2 = .done), srcList pr t s1.files⟩
     let s2 : State := { s1 with files := r.1, log := s1.log ++ [att] }
+    -- (a failure swallowed by `ignore_error` is no failure of the task: no `statusOnError` — F8C; before
+    -- it the TASK-level `ignore_error` still went through the clean-up: `C05_ignored_failure_old_rule`)
     match r.2.2 with
     | .done => (s2, ⟨.ok, false, r.2.1, []⟩)
     | .failed => (onError t s2, ⟨.failed, false, r.2.1, []⟩)
@@ -359,35 +397,82 @@ def listJson (cfg : Cfg) (H : Hashes) (pr : Proj) (now : Nat) : List Task → St
     let r := isUpToDate H pr t cfg.listDry now s
     listJson cfg H pr now ts r.1 (acc ++ [r.2])
 
+/-- `ChecksumChecker.IsUpToDate`, the loop over the `generates` entries (F8D: BEFORE the checksum is
+recorded): negated entries are skipped; an entry that cannot be expanded (`${G:?}…` while `G` is not
+set) is an ERROR; an entry that matches nothing ends the loop (verdict "not up to date", no error). -/
+def gensErr (gset : Bool) (guard : List Nat) (fs : FS) : List Pat → Nat → Bool
+  | [], _ => false
+  | g :: gs, k =>
+    if g.neg then gensErr gset guard fs gs (k + 1)
+    else if !gset && guard.contains k then true
+    else if g.ms.any (ahas fs) then gensErr gset guard fs gs (k + 1) else false
+
+/-- the up-to-date check of this task returns an error in this invocation (method checksum only:
+`TimestampChecker` swallows every expansion error) -/
+def checkErr (t : Task) (e : Env) (fs : FS) : Bool :=
+  decide (t.method = .checksum) && !t.sources.isEmpty && gensErr e.gset t.gguard fs t.generates 0
+
+/-- the state a `--force` run starts its body from (F8F): what the sources checker leaves — unless its
+check ends in an error, which `--force` ignores and which (F8D) records nothing -/
+def forceStart (H : Hashes) (pr : Proj) (t : Task) (e : Env) (s : State) : State :=
+  if checkErr t e s.files then s else (isUpToDate H pr t false e.now s).1
+
+/-- the `status:` commands of this run are interrupted by the failure of a sibling (`Env.cancelled`):
+whatever the checkers say, the task is not reported up to date -/
+def interrupted (t : Task) (e : Env) : Bool := e.cancelled && !t.status.isEmpty
+
 def invoke (cfg : Cfg) (H : Hashes) (pr : Proj) (i : Nat) (m : Mode) (e : Env) (s : State) : State × Obs :=
   match m with
   | .list => (s, Obs.quiet)
   | .summary => (s, Obs.quiet)
   | .listJson =>
+    if pr.tasks.any (fun t => checkErr t e s.files) then (s, ⟨.checkError, false, [], []⟩) else
     let r := listJson cfg H pr e.now pr.tasks s []
     (r.1, ⟨.ok, false, [], r.2⟩)
   | .status =>
     match pr.tasks[i]? with
     | none => (s, ⟨.failed, false, [], []⟩)
     | some t =>
+      if checkErr t e s.files then (s, ⟨.checkError, false, [], []⟩) else
       let r := isUpToDate H pr t true e.now s
       (r.1, ⟨if r.2 then .ok else .notUpToDate, false, [], []⟩)
   | .force =>
     match pr.tasks[i]? with
     | none => (s, ⟨.failed, false, [], []⟩)
-    | some t => runBody cfg H pr i t false e s
+    -- (F8F) the sources checker runs under --force as well, for what it RECORDS only: its verdict and its
+    -- errors are ignored, the status commands are not evaluated; before the fix the body started from `s`
+    -- and a successful forced run recorded nothing (`C05_force_old_rule`)
+    -- (an ERROR of that check — `checkErr` — is ignored as well; since F8D nothing is recorded then)
+    | some t => runBody cfg H pr i t false e (forceStart H pr t e s)
   | .run =>
     match pr.tasks[i]? with
     | none => (s, ⟨.failed, false, [], []⟩)
     | some t =>
+      -- (F8D: the `generates` entries are looked at BEFORE the checksum is recorded: nothing is left
+      -- behind; before it the state was `(sumCheck H pr t false s).1`: `C04_check_error_old_rule`)
+      if checkErr t e s.files then (s, ⟨.checkError, false, [], []⟩) else
       let r := isUpToDate H pr t false e.now s
-      if r.2 then (r.1, ⟨.ok, true, [], []⟩) else runBody cfg H pr i t false e r.1
+      if r.2 && !interrupted t e then (r.1, ⟨.ok, true, [], []⟩) else runBody cfg H pr i t false e r.1
   | .dry =>
     match pr.tasks[i]? with
     | none => (s, ⟨.failed, false, [], []⟩)
     | some t =>
+      if checkErr t e s.files then (s, ⟨.checkError, false, [], []⟩) else
       let r := isUpToDate H pr t true e.now s
       if r.2 then (r.1, ⟨.ok, true, [], []⟩) else runBody cfg H pr i t true e r.1
+
+/-- **the second activation (`Env.twin`) is reported up to date**: its check runs on the state the
+FIRST activation's check has just left — the fingerprint is recorded at check time, before any command
+— while the first activation is still inside its first command.  (Mirrors the code: the open finding
+`C04-concurrent-activation-skipped`, same root as the kill finding.  An up-to-date verdict writes
+nothing, so the state is that of `invoke`.) -/
+def twinUp (H : Hashes) (pr : Proj) (i : Nat) (e : Env) (s : State) : Bool :=
+  match pr.tasks[i]? with
+  | none => false
+  | some t =>
+    let r := isUpToDate H pr t false e.now s
+    e.twin && !checkErr t e s.files && !(r.2 && !interrupted t e) && !(t.prompt && !e.yes) && !t.cmds.isEmpty &&
+      (isUpToDate H pr t false e.now r.1).2
 
 def Mode.readOnly : Mode → Bool
   | .dry | .status | .listJson | .list | .summary => true
@@ -452,7 +537,13 @@ def lastAtt (pred : Attempt → Bool) : List Attempt → Option Attempt
 
 /-- "the most recent attempt at `t`'s commands for the present fingerprint ran them all
 successfully, and the generates exist".  Present fingerprint: for `checksum` the hash of
-the stream; for `timestamp` "no source is newer than that attempt". -/
+the stream; for `timestamp` "no source is newer than that attempt".
+
+CLOCK GRANULARITY (explicit hypothesis of the timestamp branch): modification times and the clock of
+the invocations are counted in ONE unit (whole seconds in the harness), and "newer" is strict, as in the
+code (`time.After`): a source written in the SAME tick as the attempt (`mtimeOf = a.time`) counts as
+seen by it — `≤ a.time`.  An edit within the tick of a run is invisible to the method; the property is
+read modulo that granularity (`C04_same_tick_edit_counts_as_seen`). -/
 def goodRun (H : Hashes) (pr : Proj) (i : Nat) (t : Task) (s : State) : Bool :=
   gensOk t s.files &&
   match t.method with
@@ -465,5 +556,15 @@ def goodRun (H : Hashes) (pr : Proj) (i : Nat) (t : Task) (s : State) : Bool :=
      | some a => a.ok && (srcsNow t s.files).all (fun p => decide (mtimeOf s.files p ≤ a.time))
      | none => false)
   | .none => false
+
+/-- `goodRun` for method checksum read off the GHOST source lists instead of the hashes: "the most
+recent attempt at `t`'s commands for the PRESENT (names, contents) of the matched sources ran them all
+successfully, and the generates exist" — the statement of the property itself; `goodRun` compares
+fingerprints, which a constant hash would make vacuous (`C04_partial_src`) -/
+def goodRunSrc (pr : Proj) (i : Nat) (t : Task) (s : State) : Bool :=
+  gensOk t s.files &&
+    (match lastAtt (fun a => decide (a.task = i ∧ a.src = srcList pr t s.files)) s.log with
+     | some a => a.ok
+     | none => false)
 
 end TaskModel.Finger
